@@ -205,7 +205,7 @@ def task_bezier_sym(p, times):
             chk.identities("post", [("col%d" % i, sum(Nn[j] * T[j][i] for j in range(q + 1)), No[i]) for i in range(p + 1)])
             chk.exact("exact", T)
 
-    return H.run_paths(ctx, fn, "S-sym", "p=%d,t=%d" % (p, times), dict(kind="c06", scenario="bezier-sym", shape=shape, times=times), body)
+    return H.run_paths(ctx, fn, "S-sym", "p=%d,t=%d" % (p, times), dict(kind="c06", scenario="bezier-sym", shape=shape, times=times, task=("c06", "task_bezier_sym", [p, times])), body)
 
 
 task_bezier_sym.contract_fn = "heavy.Operations.degree_increase_bezier"
@@ -230,6 +230,8 @@ def replay(o):
     w = o["witness"]
     shape = (w["shape"][0], tuple(w["shape"][1]))
     sc = w["scenario"]
+    if sc == "bezier-sym" and w.get("task"):
+        return H.generic_replay(o)
     if sc in ("bad", "bezier-sym"):
         return False, "see verifier output", "not replayed concretely"
     ks = [F(x) for x in w["ks"]]
